@@ -50,7 +50,7 @@ Verdict runC13(const Case &cs) {
     Outcome o = runParse(*b, codes, cf, po);
     v.parses++;
     std::string where = " [" + cf.str() + "] got " + o.str();
-    if (o.hook.rec_explosion) { v.labels.insert("excluded:F27-recovery-explosion"); continue; }
+    if (o.exploded()) { v.labels.insert(o.explosionLabel()); continue; }
     if (o.rc != 0) { v.fail("yaep_parse returned " + std::to_string(o.rc) + where); return v; }
     if (o.t_bad_free) { v.fail("parse_free received a block that parse_alloc did not return during this parse, or received it twice: " + o.t_bad + where); return v; }
     if (cf.freemode == 1 && (g_tree.n_free || g_tree.n_free_null)) { v.fail("parse_free is NULL but something was released" + where); return v; }
@@ -169,7 +169,12 @@ Verdict runC12(const Case &cs) {
     Outcome o = runParse(*b, codes, cf, po);
     v.parses++;
     std::string where = " [" + cf.str() + " tokens=" + std::to_string(codes.size()) + "] got " + o.str().substr(0, 400);
-    if (o.hook.rec_explosion) {
+    if (o.hook.alt_explosion) {
+      abnormal = true;
+      if (kfListed("KF-C12-all-parses-translation-explosion")) { v.known = "KF-C12-all-parses-translation-explosion"; if (v.st == V_PASS) v.st = V_KNOWN; v.labels.insert("attributed:KF-C12-all-parses-translation-explosion"); continue; }
+      v.fail("building all parses created more than " + std::to_string(ALT_LIMIT) + " alternative nodes (one per derivation: unbounded time and memory)" + where); return v;
+    }
+    if (o.exploded()) {
       abnormal = true;
       if (kfListed("KF-C12-recovery-search-explosion")) { v.known = "KF-C12-recovery-search-explosion"; if (v.st == V_PASS) v.st = V_KNOWN; v.labels.insert("attributed:KF-C12-recovery-search-explosion"); continue; }
       v.fail("error recovery examined more than " + std::to_string(cs.P("reclimit", REC_LIMIT)) + " alternatives for one syntax error (unbounded time and memory)" + where); return v;
